@@ -35,6 +35,10 @@ pub struct Case {
     pub contents: Vec<ContentSpec>,
     pub extra: Vec<ExtraPack>,
     pub history: Vec<Op>,
+    /// Some(n): the container is assembled with the low-level creators, every content pack
+    /// carrying n bytes of free data in the manifest (pack infos far from the manifest's start)
+    #[serde(default)]
+    pub lowlevel_free_data: Option<u32>,
 }
 
 pub struct C12;
@@ -88,7 +92,7 @@ impl Property for C12 {
     fn cases(tier: Tier) -> u32 {
         match tier {
             Tier::Quick => 2400,
-            Tier::Thorough => 30000,
+            Tier::Thorough => 150000,
         }
     }
 
@@ -113,15 +117,20 @@ impl Property for C12 {
             packaging_strategy(),
             comp_strategy(),
             small_content_seq_strategy(),
-            prop::collection::vec((comp_strategy(), small_content_seq_strategy()).prop_map(|(comp, contents)| ExtraPack { comp, contents }), 0..=2),
+            prop::collection::vec((comp_strategy(), small_content_seq_strategy(), prop_oneof![3 => Just(0u8), 1 => 1u8..5]).prop_map(|(comp, contents, id_class)| ExtraPack { comp, contents, id_class }), 0..=2),
             prop::collection::vec(op, 0..max_ops),
         )
-            .prop_map(|(packaging, comp, contents, extra, history)| Case { packaging, comp, contents, extra, history })
+            .prop_map(|(packaging, comp, contents, extra, history)| {
+                // one case in eight: low-level assembly with big free data (0, 30 KB or 70 KB per pack)
+                let sel = history.len() as u32 * 7 + contents.len() as u32;
+                let lowlevel_free_data = if sel % 8 == 3 { Some([0u32, 30_000, 70_000][(sel / 8 % 3) as usize]) } else { None };
+                Case { packaging, comp, contents, extra, history, lowlevel_free_data }
+            })
             .boxed()
     }
 
     fn required_classes(_tier: Tier) -> Vec<&'static str> {
-        vec!["manifest-at-offset>0", "manifest-standalone", "rewrite-twice-same-pack", "utf8-at-limit", "unknown-uuid", "relocate-directory-pack", "restore-original", "packs-listed:4"]
+        vec!["manifest-at-offset>0", "manifest-standalone", "rewrite-twice-same-pack", "utf8-at-limit", "unknown-uuid", "relocate-directory-pack", "restore-original", "packs-listed:4", "lowlevel-container", "pack-infos-beyond-64KiB"]
     }
 
     fn run(case: &Case, ctx: &Ctx) -> CaseResult {
@@ -135,7 +144,21 @@ impl Property for C12 {
             dir: DirSpec::addresses_only(),
         };
         let dir = ctx.subdir("c12");
-        let built = build(&spec, &dir, "a.jbk", None)?;
+        let built = match case.lowlevel_free_data {
+            None => build(&spec, &dir, "a.jbk", None)?,
+            Some(n) => {
+                info.class("lowlevel-container");
+                if n >= 30_000 {
+                    info.class("pack-infos-beyond-64KiB");
+                }
+                let mut packs = vec![(case.comp, case.contents.clone())];
+                for e in &case.extra {
+                    packs.push((e.comp, e.contents.clone()));
+                }
+                packs.push((Comp::None, vec![]));
+                build_lowlevel(&dir, "a.jbk", &packs, n as usize, &spec.dir)?
+            }
+        };
         let path = built.main_path.clone();
         // model of the pack infos from the independent decoder
         let data0 = std::fs::read(&path).unwrap();
